@@ -1,5 +1,7 @@
 import WmModel.Props.C13
 import WmModel.Props.C13Tie
+import WmModel.Props.C13Router
+import WmModel.Props.C02Tie
 #print axioms Wm.Poison.poisonKeys_distinct
 #print axioms Wm.Poison.lookup_stamp
 #print axioms Wm.Poison.poison_decision
@@ -22,3 +24,8 @@ import WmModel.Props.C13Tie
 #print axioms Wm.Poison.stateful_verdict
 #print axioms Wm.Poison.budget_filter_stream
 #print axioms Wm.GoPoison.extracted_middleware_eq_model
+#print axioms Wm.Poison.routerSettle_eq_handle
+#print axioms Wm.Poison.routerSettle_eq_handle_panic
+#print axioms Wm.Poison.acked_by_handleMessage_implies_handled_or_poisoned
+#print axioms Wm.GoHandle.handle_skeleton_eq_model
+#print axioms Wm.GoHandle.publish_skeleton_eq_model
